@@ -198,10 +198,8 @@ def _chunk(args):
     rng = np.random.default_rng(seed)
     for ln in lines:
         t = core.seqify(json.loads(ln))
-        if t["cfg"]["method"] == "dat":
-            check_dat(col, t, rng)
-        else:
-            check_cov(col, t, rng)
+        fn = (lambda: check_dat(col, t, rng)) if t["cfg"]["method"] == "dat" else (lambda: check_cov(col, t, rng))
+        core.guarded(col, fn, f"build_hank[{t['cfg']['method']}]", f"shape {t['cfg']}", {"transition": t})
         col.traces += 1
     return col
 
